@@ -55,7 +55,7 @@ CLAIMED = {
    "Cannot own rayon's schedule; one recorded finding (ska lo, overlapping variant groups) is printed as KNOWN-FINDING.", "DESIGN.md §5 C11, §4 F11"),
  "C17": C("exploration", PBT+": constructed isolated-SNP genome sets through ska build/lo (with and without reference), validity predicates on arbitrary inputs",
    "Planted isolated SNPs must all be called (reference-free) with the true alleles; with a reference every call must be true and consistently written; arbitrary inputs must give well-formed output."+EXPL,
-   "Completeness only inside the isolation preconditions (unique (k-1)-mers, >= 2k apart, >= k from the ends).", "DESIGN.md §5 C17"),
+   "Completeness only inside the isolation preconditions (unique (k-1)-mers, >= 2k apart, >= k from the ends). One recorded finding (incomplete column when -m allows missing samples) is printed as KNOWN-FINDING.", "DESIGN.md §5 C17, §4 F13"),
  "C18": C("exploration", PBT+": constructed isolated-indel genome sets through ska build/lo; per-record validity predicate by sequence containment; aggregate recall",
    "Every indel record must describe a real difference with correct genotypes and match one planted indel once; recall >= 90% in aggregate."+EXPL,
    "Preconditions by construction; recall aggregated over the run.", "DESIGN.md §5 C18"),
